@@ -80,7 +80,7 @@ pub fn float_pool() -> Vec<(f64, &'static str)> {
 }
 
 fn gen_text(rng: &mut Rng) -> String {
-    match rng.below(10) {
+    match rng.below(40) {
         0 => String::new(),
         1 => "a".repeat(23),
         2 => "a".repeat(24),
@@ -88,6 +88,7 @@ fn gen_text(rng: &mut Rng) -> String {
         4 => "c".repeat(256),
         5 => "é∑😀\u{0}\u{7f}".to_owned(),
         6 => "x".repeat(rng.range_usize(257, 70_000)),
+        7 => "y".repeat(rng.range_usize(257, 300)),
         _ => {
             let n = rng.range_usize(1, 12);
             (0..n).map(|_| (b'a' + rng.below(26) as u8) as char).collect()
@@ -96,13 +97,13 @@ fn gen_text(rng: &mut Rng) -> String {
 }
 
 fn gen_bytes(rng: &mut Rng) -> Vec<u8> {
-    match rng.below(8) {
+    match rng.below(30) {
         0 => Vec::new(),
         1 => vec![0u8; 23],
         2 => vec![0xffu8; 24],
         3 => rng.bytes(255),
         4 => rng.bytes(256),
-        5 => rng.bytes(rng.range_usize(65_530, 65_540)),
+        5 => { let n_ = rng.range_usize(65_530, 65_540); rng.bytes(n_) },
         _ => {
             let n = rng.range_usize(1, 40);
             rng.bytes(n)
@@ -164,7 +165,13 @@ fn gen_key(rng: &mut Rng, i: usize) -> Value {
 }
 
 pub fn gen_value(rng: &mut Rng, depth: usize, floats: &[(f64, &'static str)], classes: &mut Vec<&'static str>) -> Value {
-    let container = depth > 0 && rng.chance(2, 5);
+    let mut budget = 400usize;
+    gen_value_b(rng, depth, floats, classes, &mut budget)
+}
+
+fn gen_value_b(rng: &mut Rng, depth: usize, floats: &[(f64, &'static str)], classes: &mut Vec<&'static str>, budget: &mut usize) -> Value {
+    *budget = budget.saturating_sub(1);
+    let container = depth > 0 && *budget > 0 && rng.chance(2, 5);
     if !container {
         return gen_scalar(rng, floats, classes);
     }
@@ -177,7 +184,8 @@ pub fn gen_value(rng: &mut Rng, depth: usize, floats: &[(f64, &'static str)], cl
             _ => rng.range_usize(1, 6),
         };
         classes.push("array");
-        Value::Array((0..n).map(|_| gen_value(rng, depth - 1, floats, classes)).collect())
+        let n = n.min(*budget);
+        Value::Array((0..n).map(|_| gen_value_b(rng, depth - 1, floats, classes, budget)).collect())
     } else {
         let n = match rng.below(8) {
             0 => 0,
@@ -185,7 +193,8 @@ pub fn gen_value(rng: &mut Rng, depth: usize, floats: &[(f64, &'static str)], cl
             _ => rng.range_usize(1, 7),
         };
         classes.push("map");
-        Value::Map((0..n).map(|i| (gen_key(rng, i), gen_value(rng, depth - 1, floats, classes))).collect())
+        let n = n.min(*budget);
+        Value::Map((0..n).map(|i| (gen_key(rng, i), gen_value_b(rng, depth - 1, floats, classes, budget))).collect())
     }
 }
 
@@ -425,7 +434,7 @@ fn dec_value(b: &[u8]) -> Dec {
 }
 
 fn touch_value(b: &[u8]) -> Result<(), String> {
-    decode_value(b).map(|v| drop(v)).map_err(|e| label(&e))
+    decode_value(b).map(|_| ()).map_err(|e| label(&e))
 }
 
 // ---------------------------------------------------------------------------
@@ -443,7 +452,7 @@ fn vbytes(rng: &mut Rng) -> Vec<u8> {
     match rng.below(5) {
         0 => Vec::new(),
         1 => vec![0, 23, 24, 255],
-        _ => rng.bytes(rng.range_usize(1, 40)),
+        _ => { let n_ = rng.range_usize(1, 40); rng.bytes(n_) },
     }
 }
 fn u64b(rng: &mut Rng) -> u64 {
@@ -686,11 +695,14 @@ fn dec_dto<T: Serialize + DeserializeOwned>(b: &[u8]) -> Dec {
     }
 }
 fn touch_dto<T: DeserializeOwned>(b: &[u8]) -> Result<(), String> {
-    echo_wasm_abi::decode_cbor::<T>(b).map(|v| drop(v)).map_err(|e| label(&e))
+    echo_wasm_abi::decode_cbor::<T>(b).map(|_| ()).map_err(|e| label(&e))
 }
 
 macro_rules! dto_codec {
     ($name:literal, $ty:ty, $gen:expr) => {
+        dto_codec!($name, $ty, $gen, false)
+    };
+    ($name:literal, $ty:ty, $gen:expr, $c13:expr) => {
         Codec {
             name: $name,
             family: Family::CborTyped,
@@ -702,6 +714,7 @@ macro_rules! dto_codec {
             chunks: &[],
             needs_kernel: false,
             in_c12: true,
+            in_c13: $c13,
         }
     };
 }
@@ -721,7 +734,7 @@ fn rt_intent(rng: &mut Rng) -> Rt {
     let vars = match rng.below(5) {
         0 => Vec::new(),
         1 => rng.bytes(70_000),
-        _ => rng.bytes(rng.range_usize(1, 64)),
+        _ => { let n_ = rng.range_usize(1, 64); rng.bytes(n_) },
     };
     let b1 = match echo_wasm_abi::pack_intent_v1(op_id, &vars) {
         Ok(b) => b,
@@ -769,7 +782,7 @@ fn dec_control(b: &[u8]) -> Dec {
     }
 }
 fn touch_control(b: &[u8]) -> Result<(), String> {
-    echo_wasm_abi::unpack_control_intent_v1(b).map(|v| drop(v)).map_err(|e| label(&e))
+    echo_wasm_abi::unpack_control_intent_v1(b).map(|_| ()).map_err(|e| label(&e))
 }
 fn rt_import(rng: &mut Rng) -> Rt {
     let v = g_import(rng);
@@ -795,7 +808,7 @@ fn dec_import(b: &[u8]) -> Dec {
     }
 }
 fn touch_import(b: &[u8]) -> Result<(), String> {
-    echo_wasm_abi::unpack_import_suffix_intent_v1(b).map(|v| drop(v)).map_err(|e| label(&e))
+    echo_wasm_abi::unpack_import_suffix_intent_v1(b).map(|_| ()).map_err(|e| label(&e))
 }
 
 // ---------------------------------------------------------------------------
@@ -829,7 +842,7 @@ fn rt_elog(rng: &mut Rng) -> Rt {
         .map(|_| match rng.below(5) {
             0 => Vec::new(),
             1 => rng.bytes(100_000),
-            _ => rng.bytes(rng.range_usize(1, 80)),
+            _ => { let n_ = rng.range_usize(1, 80); rng.bytes(n_) },
         })
         .collect();
     let Some(b1) = elog_write(&hdr, &frames) else { return Rt::refused("io".into()) };
@@ -966,7 +979,7 @@ fn dec_rw(b: &[u8]) -> Dec {
     }
 }
 fn touch_rw(b: &[u8]) -> Result<(), String> {
-    echo_wasm_abi::codec::decode_from_bytes::<RwDoc>(b).map(|v| drop(v)).map_err(|e| label(&e))
+    echo_wasm_abi::codec::decode_from_bytes::<RwDoc>(b).map(|_| ()).map_err(|e| label(&e))
 }
 
 pub fn codecs() -> Vec<Codec> {
@@ -982,14 +995,15 @@ pub fn codecs() -> Vec<Codec> {
             chunks: &[],
             needs_kernel: false,
             in_c12: true,
+            in_c13: true,
         },
-        dto_codec!("abi-dto.ControlIntentV1", kp::ControlIntentV1, g_control),
+        dto_codec!("abi-dto.ControlIntentV1", kp::ControlIntentV1, g_control, true),
         dto_codec!("abi-dto.ObservationRequest", kp::ObservationRequest, g_obs_request),
         dto_codec!("abi-dto.DispatchResponse", kp::DispatchResponse, g_dispatch_response),
         dto_codec!("abi-dto.HeadInfo", kp::HeadInfo, g_head_info),
         dto_codec!("abi-dto.AbiError", kp::AbiError, g_abi_error),
         dto_codec!("abi-dto.RegistryInfo", kp::RegistryInfo, g_registry),
-        dto_codec!("abi-dto.ImportSuffixRequest", kp::ImportSuffixRequest, g_import),
+        dto_codec!("abi-dto.ImportSuffixRequest", kp::ImportSuffixRequest, g_import, true),
         dto_codec!("abi-dto.Rewrite", echo_wasm_abi::Rewrite, g_rewrite),
         dto_codec!("abi-dto.WarpGraph", echo_wasm_abi::WarpGraph, g_graph),
         Codec {
@@ -1003,6 +1017,7 @@ pub fn codecs() -> Vec<Codec> {
             chunks: &[4],
             needs_kernel: false,
             in_c12: true,
+            in_c13: true,
         },
         Codec {
             name: "abi.control_intent_v1",
@@ -1015,6 +1030,7 @@ pub fn codecs() -> Vec<Codec> {
             chunks: &[4],
             needs_kernel: false,
             in_c12: true,
+            in_c13: true,
         },
         Codec {
             name: "abi.import_suffix_intent_v1",
@@ -1027,6 +1043,7 @@ pub fn codecs() -> Vec<Codec> {
             chunks: &[4],
             needs_kernel: false,
             in_c12: true,
+            in_c13: true,
         },
         Codec {
             name: "abi.eintlog",
@@ -1039,6 +1056,7 @@ pub fn codecs() -> Vec<Codec> {
             chunks: &[4, 8],
             needs_kernel: false,
             in_c12: true,
+            in_c13: true,
         },
         Codec {
             name: "abi.codec-rw",
@@ -1051,6 +1069,7 @@ pub fn codecs() -> Vec<Codec> {
             chunks: &[4, 32],
             needs_kernel: false,
             in_c12: true,
+            in_c13: true,
         },
     ]
 }
